@@ -1,7 +1,7 @@
 #!/bin/sh
 # bin/confirm_queue.sh Cxx... — run the missing full-suite confirmations of seeded mutants,
 # at most 4 properties at a time; the mutants of one property (same worktree) run sequentially.
-for P in "$@"; do echo $P; done | xargs -P 4 -I{} sh -c '
+for P in "$@"; do echo $P; done | xargs -P 6 -I{} sh -c '
   P={}
   for d in /tmp/seed-$P/SEED/[0-9]*; do
     n=$(basename $d); [ -f $d/patch.diff ] || continue
